@@ -20,6 +20,12 @@ type FilesystemWriter interface {
 	CreateDevice(n NodeDevice) error
 }
 
+// dirTimeSetter is implemented by filesystem writers that need the mtime of a
+// directory to be applied again after its entries have been created.
+type dirTimeSetter interface {
+	SetDirTime(n NodeDirectory) error
+}
+
 // FilesystemReader is an interface for source filesystem to be used during
 // tar operations. Next() is expected to return files and directories in a
 // consistent and stable order and return io.EOF when no further files are available.
